@@ -57,6 +57,15 @@ def finding_probe2(pid):
     return {"id": pid, "profile": "fc", "types": [], "funcs": [], "main": {"stmts": [{"k": "expr", "e": outer}], "fin": {"k": "int", "v": 1}}, "mtype": fogen.INT}
 
 
+def finding_probe3(pid):
+    """the designated probe of the known finding same-block-shadowing: let x = 1 / let x = x + 1 in one block"""
+    v = {"k": "var", "x": "x"}
+    return {"id": pid, "profile": "fc", "types": [], "funcs": [],
+            "main": {"stmts": [{"k": "let", "x": "x", "e": {"k": "probe", "tag": "p%ds1" % pid, "e": {"k": "int", "v": 1}}},
+                               {"k": "let", "x": "x", "e": {"k": "bin", "op": "+", "a": v, "b": {"k": "int", "v": 1}}}],
+                     "fin": {"k": "probe", "tag": "p%ds2" % pid, "e": v}}, "mtype": fogen.INT}
+
+
 def run(ctx):
     ctx.rule = ("well-typed programs of the documented profile from the seeded type-directed generator (records with upper / lower case "
                 "fields, unions with payloads of scalars / tuples / records / slices / other unions, functions, inner functions with "
@@ -77,6 +86,8 @@ def run(ctx):
     progs.append(finding_probe(fid))
     fid2 = fid + 1
     progs.append(finding_probe2(fid2))
+    fid3 = fid2 + 1
+    progs.append(finding_probe3(fid3))
     texts, observed, bad = run_programs(ctx, progs)
     for i, p in enumerate(progs):
         o = observed[p["id"]]
@@ -97,6 +108,13 @@ def run(ctx):
             bad.remove((idx, pos, exp))
             if ctx.is_known("dangling-else-inner-if-only"):
                 ctx.known_finding("dangling-else-inner-if-only", "if a then / Mark t1 / if b then / Mark t2 (multi-line, no else) / else (at the outer if's column) / Mark e: fc gives the else to the inner if and rejects the program (Overrun offside rule)")
+            else:
+                bad.append((idx, pos, exp))
+    for idx, pos, exp in list(bad):
+        if progs[idx]["id"] == fid3:
+            bad.remove((idx, pos, exp))
+            if ctx.is_known("same-block-shadowing"):
+                ctx.known_finding("same-block-shadowing", "let x = 1 / let x = x + 1 in one block (also a let with the name of a parameter in the function's own block): emitted as two `x := ...` in one Go block, the Go does not compile")
             else:
                 bad.append((idx, pos, exp))
     if "dangling-else-inner-if-only" not in ctx.known and not any(progs[idx]["id"] == fid2 for idx, _, _ in bad):
